@@ -9,6 +9,8 @@
                                 [A = hub_balance - prev_hub_balance].
     - [GR_group_paid_le_arrived] : the batches of a group released with arriving coins [A] are
                                 together worth at most [A] (hypothesis: E1' only).
+    - [GR_E1'_from_total]     : under E1 ([A <= D]) the clause E1' follows from its DESIGN.md form
+                                [(k-1) * (U_st + U_b - A) <= D].
     - [GR_claims_le_batch]    : claims that together do not exceed a batch's amounts are together
                                 worth at most the batch value (claim floors only lose).
     - [GR_group_dust]         : without slashing / unsolicited transfers ([A = U_st + U_b <= D]) every
@@ -17,7 +19,9 @@
                                 [c*u/a - 2].
     - [GR_release_deterministic] : the new history depends on balance and prev_hub_balance only
                                 through their difference.
-    - [GR_F3_witness_now_ok]  : the former F3 witness (1,1,1000 stSei @0.9, 810 arriving) now pays 808 <= 810. *)
+    - [GR_F3_witness_now_ok]  : the former F3 witness (1,1,1000 stSei @0.9, 810 arriving) now pays 809 <= 810.
+    - [GR_outside_E1'_witness]: outside E1' the per-batch credits can sum to A + 1 (payouts of the
+                                instance are still <= A): why the theorem carries E1'. *)
 From Krp Require Import Tactics Prelude Fixed FMap Types Env Registry Cw20 Hub.
 From Coq Require Import ZArith.
 Open Scope N_scope.
@@ -703,6 +707,84 @@ Proof.
   - apply N.eqb_neq in Hnz. rewrite Hnz. apply GR_dust_claim; lia.
 Qed.
 
+(** ** 9b. E1' in the form of DESIGN.md section 4
+    Under E1 ([A <= 10^18]) the loss attributed to each token type is at most the total loss
+    [U_st + U_b - A] (0 when there is a surplus), so E1' follows from
+    [(k - 1) * (U_st + U_b - A) <= 10^18]. *)
+Lemma GR_split_loss_le Ust Ub A :
+  A <= D ->
+  Ust - fst (GR_split Ust Ub A) <= Ust + Ub - A /\
+  Ub - snd (GR_split Ust Ub A) <= Ust + Ub - A.
+Proof.
+  intros HA. unfold GR_split. cbv zeta. cbn [fst snd].
+  destruct (0 <? Ust + Ub) eqn:E0.
+  2:{ rewrite N.mul_0_r, N.div_0_l by exact D_nz. lia. }
+  assert (HUdef : exists U, U = Ust + Ub) by (eexists; reflexivity).
+  destruct HUdef as (U & HUdef). rewrite <- HUdef in *.
+  assert (HU : U <> 0) by lia.
+  pose proof (N.div_mod (Ust * D) U HU) as Hq. pose proof (N.mod_lt (Ust * D) U HU) as Hr.
+  generalize dependent (Ust * D / U). intros q Hq.
+  generalize dependent ((Ust * D) mod U). intros r Hr Hq.
+  pose proof D_pos as HDp.
+  assert (HqD : q <= D).
+  { assert (U * q <= U * D); [|apply (N.mul_le_mono_pos_l q D U); lia].
+    assert (Ust * D <= U * D) by (apply N.mul_le_mono_r; lia). lia. }
+  assert (F1 : U * (D - q) = Ub * D + r).
+  { rewrite N.mul_sub_distr_l. assert (U * D = Ust * D + Ub * D) by (subst U; lia). lia. }
+  generalize dependent (D - q). intros br F1.
+  pose proof (N.div_mod (A * br) D D_nz) as Hab. pose proof (N.mod_lt (A * br) D D_nz) as Hr2.
+  generalize dependent (A * br / D). intros Ab Hab.
+  generalize dependent ((A * br) mod D). intros r2 Hr2 Hab.
+  (* E: U*D*Ab + U*r2 = A*Ub*D + A*r *)
+  assert (E : U * (D * Ab) + U * r2 = A * (Ub * D) + A * r).
+  { assert (X : U * (A * br) = A * (U * br)) by lia. rewrite Hab, F1 in X. lia. }
+  assert (H2 : A * r < U * D).
+  { destruct (N.eq_dec A 0) as [->|HA0]; [lia|].
+    assert (A * r < A * U) by (apply N.mul_lt_mono_pos_l; lia).
+    assert (A * U <= D * U) by (apply N.mul_le_mono_r; lia). lia. }
+  assert (H6 : U * (D * A) = A * (D * Ust) + A * (Ub * D)) by (subst U; lia).
+  assert (H10 : U * r2 < U * D) by (apply N.mul_lt_mono_pos_l; lia).
+  split.
+  - destruct (N.le_gt_cases A U) as [HAU|HAU].
+    + assert (Ab <= Ub); [|lia].
+      destruct (N.le_gt_cases Ab Ub) as [Hok|Hbad]; [exact Hok|exfalso].
+      assert (H1 : A * (Ub * D) <= U * (Ub * D)) by (apply N.mul_le_mono_r; exact HAU).
+      assert (H3 : U * (Ub * D + D) <= U * (D * Ab)).
+      { apply N.mul_le_mono_l. assert (D * (Ub + 1) <= D * Ab) by (apply N.mul_le_mono_l; lia). lia. }
+      lia.
+    + assert (Ust + Ab <= A); [|lia].
+      destruct (N.le_gt_cases (Ust + Ab) A) as [Hok|Hbad]; [exact Hok|exfalso].
+      assert (H4 : U * (D * Ust) <= A * (D * Ust)) by (apply N.mul_le_mono_r; lia).
+      assert (H5 : (U * D) * (A + 1) <= (U * D) * (Ust + Ab)) by (apply N.mul_le_mono_l; lia).
+      lia.
+  - destruct (N.le_gt_cases U A) as [HAU|HAU].
+    + assert (Ub <= Ab); [|lia].
+      destruct (N.le_gt_cases Ub Ab) as [Hok|Hbad]; [exact Hok|exfalso].
+      assert (H7 : U * br <= A * br) by (apply N.mul_le_mono_r; exact HAU).
+      assert (H8 : D * (Ab + 1) <= D * Ub) by (apply N.mul_le_mono_l; lia).
+      lia.
+    + assert (A <= Ust + Ab); [|lia].
+      destruct (N.le_gt_cases A (Ust + Ab)) as [Hok|Hbad]; [exact Hok|exfalso].
+      assert (H9 : A * (D * Ust) <= U * (D * Ust)) by (apply N.mul_le_mono_r; lia).
+      assert (H5 : (U * D) * (Ust + Ab + 1) <= (U * D) * A) by (apply N.mul_le_mono_l; lia).
+      lia.
+Qed.
+
+Definition GR_E1'_total (g : list (N * hist_entry)) (A : N) : Prop :=
+  A <= D /\ (N.of_nat (length g) - 1) * (GR_tot_s g + GR_tot_b g - A) <= D.
+
+Theorem GR_E1'_from_total g A : GR_E1'_total g A -> GR_E1' g A.
+Proof.
+  intros [HA HE]. unfold GR_E1'. cbv zeta.
+  destruct (GR_split_loss_le (GR_tot_s g) (GR_tot_b g) A HA) as [H1 H2].
+  split; (eapply N.le_trans; [apply N.mul_le_mono_l|exact HE]); assumption.
+Qed.
+
+Corollary GR_group_paid_le_arrived_total g A :
+  GR_E1'_total g A ->
+  sumN (map (fun ie => GR_batch_value (snd ie)) (GR_release g A)) <= A.
+Proof. intros H. apply GR_group_paid_le_arrived. apply GR_E1'_from_total. exact H. Qed.
+
 (** ** 10. Non-vacuity: concrete groups *)
 Definition GR_r09 : N := 900000000000000000.
 (** the former F3 witness: three stSei batches 1, 1, 1000 at rate 0.9; 810 of the expected 900 arrive *)
@@ -712,6 +794,9 @@ Definition GR_ex_g : list (N * hist_entry) :=
 
 Example GR_ex_E1' : GR_E1' GR_ex_g 810.
 Proof. unfold GR_E1'. cbv zeta. split; apply N.leb_le; vm_compute; reflexivity. Qed.
+
+Example GR_ex_E1'_total : GR_E1'_total GR_ex_g 810.
+Proof. unfold GR_E1'_total. split; apply N.leb_le; vm_compute; reflexivity. Qed.
 
 Example GR_F3_witness_now_ok :
   (GR_tot_s GR_ex_g, GR_tot_b GR_ex_g) = (900, 0) /\
@@ -735,4 +820,26 @@ Proof.
   split; [apply N.leb_le; vm_compute; reflexivity|]. split.
   - intros ie [<-|[<-|[<-|[]]]]; split; apply N.leb_le; vm_compute; reflexivity.
   - vm_compute. split; reflexivity.
+Qed.
+
+(** Outside E1' (found by search on the arithmetic): four stSei batches at rate 1, 8.19e17 expected,
+    5.65e17 lost, (k-1)*L = 1.7e18 > 10^18.  The per-batch credits sum to one unit MORE than the
+    arrived coins, so [GR_type_sum_le] (the route of the proof) needs E1'; at payout level the
+    rate floors absorb it in this instance (payouts = A - 3).  No payout-level overpayment is known
+    outside E1'; none is claimed impossible. *)
+Definition GR_ex_g4 : list (N * hist_entry) :=
+  [(1, mkHist 10 0 D D 249325445975942697 D D false); (2, mkHist 10 0 D D 226874477423511588 D D false);
+   (3, mkHist 10 0 D D 223573344874044939 D D false); (4, mkHist 10 0 D D 119653130377447039 D D false)].
+Definition GR_ex_A4 : N := 253992354649497905.
+
+Example GR_outside_E1'_witness :
+  GR_tot_s GR_ex_g4 = 819426398650946263 /\ GR_tot_b GR_ex_g4 = 0 /\
+  ~ GR_E1' GR_ex_g4 GR_ex_A4 /\
+  sumN (map (fun u => GR_credited u (GR_tot_s GR_ex_g4) (GR_tot_s GR_ex_g4 - GR_ex_A4) false)
+            (GR_us GR_ex_g4)) = GR_ex_A4 + 1 /\
+  sumN (map (fun ie => GR_batch_value (snd ie)) (GR_release GR_ex_g4 GR_ex_A4)) = GR_ex_A4 - 3.
+Proof.
+  split; [vm_compute; reflexivity|]. split; [vm_compute; reflexivity|]. split.
+  - unfold GR_E1'. cbv zeta. intros [H _]. apply N.leb_le in H. vm_compute in H. discriminate H.
+  - split; vm_compute; reflexivity.
 Qed.
